@@ -45,6 +45,46 @@ CHECKS = {
     technique='bounded exhaustive enumeration of typed expression/statement shapes with logging probes (all truth assignments, every raising probe) + Hypothesis larger shapes; small reference evaluator of order and laziness',
     text='All statement shapes with up to 2 (quick) / 3 (thorough) internal nodes over 32 node kinds, each under all truth assignments of its probes and with every single probe (or none) raising, are evaluated with logging host probes at the leaves; the probe log, value and type must equal those of a 60-line reference evaluator of shapes. Exhaustive within the bound; larger shapes sampled with Hypothesis.',
     note='Trusted: the shape evaluator in sqv/props/c09.py; probes are host callables.'),
+ 'C10': dict(
+    technique='Hypothesis programs with names bound at builtin/host/parameter level; differential against a reference scope model + invariants on the builtin table and host-invoked lambdas',
+    text='Generated programs bind len/sum/x/y/k at up to three levels at once, call lambdas nested and re-entrantly (call, map, sorted, reduce), raise inside higher-order builtins and under a swallowing host callback, use statement-bodied lambdas through ast_names, tiny host mappings equal to a parameter binding, evals without a names mapping, and lambdas carried into a second names mapping. Value, error class and final names must equal the reference scope model; the builtin table keeps identical entries; host calls of program lambdas leave no binding behind. Exploration.',
+    note='Trusted: sqv/spec/refsem.py scope model (innermost-first, write to the top scope, lambdas run against the eval in progress); known finding D15 classified by shape and printed as KNOWN-FINDING.'),
+ 'C11': dict(
+    technique='Hypothesis call-history sequences; lock-step of one long-lived parser against a fresh parser per call; metamorphic repeat-stability',
+    text='Generated sequences of parse/eval/list_names calls (valid, lexically and syntactically invalid incl. unbalanced brackets and premature end, runtime and ops-limit failures, lazily consumed / abandoned / interleaved list_names generators, lambdas persisting in names and copied between mappings) are applied to one long-lived SqParser and, call by call, to a never-used SqParser with deep-equal arguments; result, exception class+message and names must agree. An identical call repeated 30 times, also after the host changed other mappings, must keep its outcome. Exploration.',
+    note='Trusted: fresh-world answers are memoised by argument contents when names hold no callables.'),
+ 'C12': dict(
+    technique='Hypothesis assignment/mutation/read sequences; differential against reference value semantics + object-identity disjointness invariant checked by a run-time monitor',
+    text='Generated sequences over nested list/dict/tuple values with shared sub-objects and host-held objects: the four assignment forms, then mutations through either side, a host-side mutation between two evals, then reads. Results, names and the host objects must equal the reference value semantics; right after every assignment-like node a monitor checks that mutable objects reachable from the stored value (for += on lists: the appended elements) are disjoint from everything else reachable. Exploration.',
+    note='Trusted: the harness monitor reading VMState.names.scopes (falls back to the host mapping); self-containing values are skipped.'),
+ 'C14': dict(
+    technique='bounded exhaustive DFS over an operation alphabet + Hypothesis RuleBasedStateMachine; Python list/dict reference model with explicit casts',
+    text='All operation sequences up to depth 3 (quick) / 4 (thorough) over 55 concrete list/dict operations from an empty and a populated state, and random RuleBasedStateMachine sequences up to 60 steps with generated keys/indices/values, each step a tiny eval on a persistent mapping; after every step the observable result, the error class for missing key / out-of-range read / pop on empty, and the full container contents must equal the Python model with int()/str() casts. Exhaustive within the depth bound.',
+    note='Trusted: the 150-line model in sqv/props/c14.py; failing writes may raise anything or be no-ops as long as the container is unchanged.'),
+ 'C15': dict(
+    technique='Hypothesis programs x meaning-preserving rewrites (tree-level and token-gap level), metamorphic tree equality; every-position sweeps',
+    text='Generated programs are rendered canonically and rewritten: spaces/tabs, comments, LF/CRLF breaks inside brackets, ; vs newline, blank statements, CRLF, trailing commas in every call/method/pipe/list/dict, redundant parentheses around any sub-expression, r.f(a) / r | f(a) / f(r, a) conversion - random subsets and, one at a time, every applicable position. The implementation must parse original and rewritten text to equal trees; the frozen reference parser certifies each rewrite preserves meaning. Exploration.',
+    note='Trusted: reference lexer/parser for the harness self-check and for locating positions.'),
+ 'C16': dict(
+    technique='atheris coverage-guided fuzzing with an in-target reference-classification oracle + Hypothesis text/truncations/mutations + placed failures judged by the reference interpreter',
+    text='(a) 8 atheris processes (empty and seeded corpus, dictionary) and Hypothesis-generated arbitrary Unicode, hostile atoms, truncations at every token boundary, unbalanced brackets, unterminated strings feed parse, list_names and eval: nothing but an Exception may escape; lexically invalid text must give ParserError from all three, grammar-rejected text from parse and eval. (b) Typed programs with a placed failure (undefined variable/function/method/pipe, compound assignment to undefined target, missing key, bad index, pop on empty, at-cap growth, exhausted budget) at a drawn position: whenever the reference interpreter ends in a language-level failure the implementation must raise ParserError. Exploration.',
+    note='Trusted: reference lexer/parser/interpreter; RecursionError/MemoryError on valid deep programs are ordinary Exceptions; libFuzzer campaigns are only approximately reproducible, saved inputs are the reproducible unit.'),
+ 'C17': dict(
+    technique='Hypothesis call sequences; lock-step of an uncached parser against dict / LRU(2) / always-evicting / pre-warmed caches; deep attribute snapshot of cached trees',
+    text='Generated sequences of parse/eval calls over repeated, whitespace-near-duplicate and failing sources, names that shadow builtins, varying budgets, with the host mutating every mutable result, are applied to five parsers differing only in their cache mapping; results, exception class+message, names and parsed trees must agree call by call, and a deep snapshot (all instance attributes) of every cached tree must be unchanged by every eval. Exploration.',
+    note='Trusted: cache mappings are well-behaved MutableMappings.'),
+ 'C18': dict(
+    technique='Hypothesis hostile-atom texts and identifier-renamed programs; differential against the reference lexer, tree-name containment, recording host mapping',
+    text='Texts from ~110 hostile atoms and parsable programs whose identifiers in every role are renamed into %...% names with spaces/dots/operators/quotes/# and keyword-adjacent names: list_names must equal the reference lexer NAME stream (ParserError when lexically invalid), equal the set of names in the parsed tree up to the implicit sugar helpers, cover every key an eval requests from a recording host mapping (with all names missing and with all defined), and survive lazy/interleaved consumption. Exploration.',
+    note='Trusted: reference lexer; the recording mapping is a dict subclass.'),
+ 'C19': dict(
+    technique='Hypothesis inputs x 200 seeded draws each; range / identity / permutation oracles',
+    text='rand(), rand(a, b) over integer-valued bounds of every host numeric type (Decimal literals, ints, Decimals like 5.0 / 5E+2, negative, equal, up to 10^30), rand(list), shuffle(list) incl. empty/one-element/duplicate/nested lists, 200 draws per input with the random module re-seeded per draw: range, integrality, element identity, new-list permutation and argument immutability are checked. Exploration.',
+    note='Trusted: Python random as the entropy source (re-seeded by the harness).'),
+ 'C20': dict(
+    technique='Hypothesis multi-statement programs made invalid by construction at a known token; message oracle from the reference lexer physical line; all truncations',
+    text='Valid programs mixing \\n, \\r\\n, ;, blank lines, comments and multi-line bracketed literals are made invalid by inserting an operand after an operand, a binary-only operator after an operator/opener/separator, an unmatched closer or a doubled comma at a drawn position, so the offending token and its physical line are known independently; the ParserError message must name that token and line. Every rejected truncation of an accepted program must be reported as an unexpected end of input. Exploration.',
+    note='Trusted: LR parsers report the first non-viable token; reference lexer/parser to pick positions and recognise accepted truncations.'),
 }
 NOT_YET = 'check not built yet (work in progress; will be claimed once its check is registered)'
 
